@@ -44,6 +44,18 @@ type msgSpec struct {
 	HdrFields int
 	BodyLen   int
 	FileBody  bool
+	// size / shape classes (sizes_test.go); "" = the short generators below
+	HdrKind  string
+	HdrSize  int
+	BodyKind string
+	// fields the pipeline prepends after the endpoint parsed the message: they
+	// have no raw form yet, the queue's WriteHeader formats and folds them
+	AddedFields int
+	// SMTPUTF8 message (UTF-8 addresses)
+	UTF8 bool
+
+	classes     []string
+	classesDone bool
 
 	hdr       textproto.Header
 	hdrBytes  []byte
@@ -68,6 +80,9 @@ type scenario struct {
 	// fails temporarily, 2 = first pending recipient fails permanently,
 	// 3 = first temporarily and second permanently.
 	FlakyRecovery int
+	// Sparse: the recorder keeps only some of the writes into header / body
+	// files (sizes_test.go); for messages of megabytes.
+	Sparse bool
 }
 
 func (s *scenario) msg(id string) *msgSpec {
@@ -82,6 +97,9 @@ func (s *scenario) msg(id string) *msgSpec {
 func (s *scenario) shape() string {
 	var b strings.Builder
 	fmt.Fprintf(&b, "partial=%v|max=%d|gate=%v|depth=%d|flaky=%v", s.Partial, s.MaxTries, s.Gate, s.Depth, s.FlakyRecovery)
+	if s.Sparse {
+		b.WriteString("|sparse|" + s.Name)
+	}
 	for _, m := range s.Msgs {
 		fmt.Fprintf(&b, "|%s:%d:", fateNames[m.Fate], len(m.Rcpts))
 		for _, sq := range m.Seq {
@@ -91,6 +109,9 @@ func (s *scenario) shape() string {
 		if m.FileBody {
 			b.WriteString(":file")
 		}
+		if m.HdrKind != "" || m.BodyKind != "" || m.UTF8 {
+			fmt.Fprintf(&b, ":h=%s:b=%s:added=%d:utf8=%v", m.HdrKind, m.BodyKind, m.AddedFields, m.UTF8)
+		}
 	}
 	return b.String()
 }
@@ -98,9 +119,10 @@ func (s *scenario) shape() string {
 func (s *scenario) describe() map[string]any {
 	var ms []map[string]any
 	for _, m := range s.Msgs {
-		ms = append(ms, map[string]any{"id": m.ID, "from": m.From, "rcpts": m.Rcpts, "fate": fateNames[m.Fate], "rcpt_outcomes": m.Seq, "whole_failures": m.Whole, "rcpt_stage": m.RcptStage, "header_bytes": len(m.hdrBytes), "body_bytes": len(m.bodyBytes), "file_body": m.FileBody})
+		ms = append(ms, map[string]any{"id": m.ID, "from": m.From, "rcpts": m.Rcpts, "fate": fateNames[m.Fate], "rcpt_outcomes": m.Seq, "whole_failures": m.Whole, "rcpt_stage": m.RcptStage, "header_bytes": len(m.hdrBytes), "body_bytes": len(m.bodyBytes), "file_body": m.FileBody,
+			"header_kind": m.HdrKind, "body_kind": m.BodyKind, "fields_added_by_pipeline": m.AddedFields, "smtputf8": m.UTF8, "size_classes": m.sizeClasses()})
 	}
-	return map[string]any{"name": s.Name, "partial_delivery": s.Partial, "max_tries": s.MaxTries, "gate": s.Gate, "depth": s.Depth, "flaky_recovery": s.FlakyRecovery, "messages": ms}
+	return map[string]any{"name": s.Name, "partial_delivery": s.Partial, "max_tries": s.MaxTries, "gate": s.Gate, "depth": s.Depth, "flaky_recovery": s.FlakyRecovery, "sparse_recording": s.Sparse, "messages": ms}
 }
 
 func (s *scenario) nontrivial() bool {
@@ -146,25 +168,45 @@ func words(p *prng.R, n int) string {
 
 func (m *msgSpec) materialise(p *prng.R, tmp string) error {
 	var raw bytes.Buffer
-	names := []string{"Subject", "From", "To", "Message-Id", "X-Verif", "Received", "Date"}
-	for i := 0; i < m.HdrFields; i++ {
-		fmt.Fprintf(&raw, "%s: %s\r\n", names[i%len(names)], words(p, p.Range(3, 60)))
+	if m.HdrKind != "" {
+		raw.Write(buildHeaderRaw(m, p))
+	} else {
+		names := []string{"Subject", "From", "To", "Message-Id", "X-Verif", "Received", "Date"}
+		for i := 0; i < m.HdrFields; i++ {
+			fmt.Fprintf(&raw, "%s: %s\r\n", names[i%len(names)], words(p, p.Range(3, 60)))
+		}
+		raw.WriteString("\r\n")
 	}
-	raw.WriteString("\r\n")
 	h, err := textproto.ReadHeader(bufio.NewReader(bytes.NewReader(raw.Bytes())))
 	if err != nil {
 		return err
 	}
+	for i := 0; i < m.AddedFields; i++ {
+		switch i % 3 {
+		case 0:
+			h.Add("Received", "from client.example (client.example [192.0.2.1]) by mx.verif.example (envelope-sender <"+m.From+">) with ESMTPS id "+m.ID+"; Thu, 01 Oct 2026 10:00:00 +0000")
+		case 1:
+			h.Add("Authentication-Results", "mx.verif.example; spf=pass smtp.mailfrom=origin.example; dkim=pass header.d=origin.example; dmarc=pass header.from=origin.example; "+words(p, 120))
+		default:
+			h.Add("X-Verif-Signature", "v=1; a=rsa-sha256; bh="+strings.Repeat("Qk9EWUhBU0g", 9)+"; b="+strings.Repeat("c2lnbmF0dXJl", 40))
+		}
+	}
 	m.hdr = h
 	var hb bytes.Buffer
-	textproto.WriteHeader(&hb, h)
-	m.hdrBytes = hb.Bytes()
-	var bb bytes.Buffer
-	for bb.Len() < m.BodyLen {
-		bb.WriteString(words(p, p.Range(1, 70)))
-		bb.WriteString("\r\n")
+	if err := textproto.WriteHeader(&hb, h); err != nil {
+		return err
 	}
-	m.bodyBytes = bb.Bytes()
+	m.hdrBytes = hb.Bytes()
+	if m.BodyKind != "" {
+		m.bodyBytes = buildBody(m, p)
+	} else {
+		var bb bytes.Buffer
+		for bb.Len() < m.BodyLen {
+			bb.WriteString(words(p, p.Range(1, 70)))
+			bb.WriteString("\r\n")
+		}
+		m.bodyBytes = bb.Bytes()
+	}
 	if m.FileBody {
 		path := filepath.Join(tmp, "incoming-"+m.ID)
 		if err := os.WriteFile(path, m.bodyBytes, 0o600); err != nil {
